@@ -177,7 +177,21 @@ impl Prop for C07Prop {
             return None;
         }
         let w = wf::Wf { prog: p, gaps, input, style };
-        Some(wf::case_of(&w, cfg, stream))
+        let mut c = wf::case_of(&w, cfg, stream);
+        // line-ending variants of the whole file: the regions must survive byte for byte whatever
+        // the endings are (lone CR is the open finding F-C07-cr)
+        match t.below(8) {
+            0 | 1 => {
+                c.input = c.input.replace('\n', "\r\n");
+                c.tags.push("endings:crlf".into());
+            }
+            2 => {
+                c.input = c.input.replace('\n', "\r");
+                c.tags.push("endings:cr".into());
+            }
+            _ => {}
+        }
+        Some(c)
     }
     fn check(&self, case: &Case, ctx: &mut Ctx) -> Outcome {
         let x = &case.input;
@@ -229,6 +243,7 @@ impl Prop for C07Prop {
                         ),
                     )
                     .fact(format!("span:{what}"))
+                    .fact(if want.contains("{$") || want.contains("(*$") { "span-contains-directive" } else { "span-without-directive" })
                     .facts(&logf),
                 );
             }
